@@ -438,20 +438,9 @@ Proof.
 Qed.
 
 (* ---------- leaving the connected states with nothing buffered ---------- *)
-Lemma drain_nil s : s_in_buf s = [] -> drain s = s.
-Proof.
-  intros H. unfold drain. rewrite H. cbn [length drain_message_in].
-  destruct (negb (s_in_open s)); [reflexivity|]. rewrite H. reflexivity.
-Qed.
-
+(* (with nothing buffered the drain that now precedes the disconnect does nothing: FrameProofs.hd_no_buffer) *)
 Lemma hd_quiet s : s_in_buf s = [] -> Quiet s (handle_disconnect_state drain s).
-Proof.
-  intros Hb. unfold handle_disconnect_state. cbv zeta.
-  match goal with |- Quiet s (upd_chan (drain ?x) _ _ _ _) => set (s3 := x) end.
-  assert (H3 : s_in_buf s3 = []).
-  { unfold s3. repeat match goal with |- context [if ?c then _ else _] => destruct c end; exact Hb. }
-  rewrite (drain_nil s3 H3). apply qt_upd_chan. unfold s3. qt_go.
-Qed.
+Proof. intros Hb. rewrite (hd_no_buffer s Hb). unfold disconnect_now. cbv zeta. qt_go. Qed.
 
 Lemma set_state_quiet s next : s_in_buf s = [] -> Quiet s (set_state s next).
 Proof.
@@ -695,3 +684,26 @@ Lemma lgp_ahead_example :
   = [(false, 30, 1, 1, 0, false, []); (true, 7, 3, 1, 1, true, [(T_LOGON, 1, Some lgp_Y)])]
   /\ c07_check lgp_cfg (lgp_trace es) = [].
 Proof. vm_compute. repeat split; reflexivity. Qed.
+
+(* The hypothesis `s_in_buf s = []` of the two step lemmas (it is part of the guards of clauses 2006 and 707) cannot be
+   dropped, before or after the repair of F17: a Logon that FAILS (here: wrong SenderCompID, announcing 7 s) ends the
+   connection, the frames still buffered are handled first, in the logon state, and a buffered valid Logon (announcing 9 s)
+   is accepted there: OnLogon is called in this event and the interval is 9, not 7. *)
+Definition lgp_buffered_state : sess :=
+  {| s_cfg := lgp_cfg; s_st := SLogon; s_snd := 1; s_tgt := 1; s_msgs := []; s_to_send := []; s_out_open := true;
+     s_in_open := true; s_in_buf := [Some (lgp_logon 1 9)]; s_sent_reset := false; s_hb := 30; s_pending_stop := false;
+     s_stopped := false; s_cbs := []; s_wire := []; s_closed := false |}.
+Definition lgp_bad_logon : minput :=
+  {| mi_type := T_LOGON; mi_begin := B "FIX.4.2"; mi_sender := Some (B "X"); mi_target := Some (B "S");
+     mi_seq := FVal 1; mi_possdup := FAbsent; mi_stime := FVal 0; mi_otime := FAbsent; mi_gapfill := FAbsent;
+     mi_newseq := FAbsent; mi_beginseq := FAbsent; mi_endseq := FAbsent; mi_reset := FVal true; mi_hbint := FVal 7;
+     mi_testreq := None; mi_applver := None; mi_route := []; mi_body := []; mi_app := VAccept; mi_valid := VAccept;
+     mi_refuse := [] |}.
+Lemma step_logon_adopts_hb_needs_empty_buffer :
+  let s := lgp_buffered_state in let m := lgp_bad_logon in
+  Boundary s /\ s_st s = SLogon /\ initiator s = false /\ c_hb_override (s_cfg s) = false /\ mi_hbint m = FVal 7
+  /\ In CbOnLogon (s_cbs (step s (EIncoming m))) /\ s_hb (step s (EIncoming m)) = 9.
+Proof.
+  cbv zeta. split; [split; cbn; intros H; [split; reflexivity | discriminate]|].
+  vm_compute. repeat split; auto 10.
+Qed.
